@@ -20,6 +20,7 @@ package sql
 import (
 	"context"
 	"database/sql/driver"
+	"fmt"
 
 	"seata.apache.org/seata-go/pkg/datasource/sql/exec"
 	"seata.apache.org/seata-go/pkg/datasource/sql/types"
@@ -63,7 +64,9 @@ func (s *Stmt) NumInput() int {
 // SELECT.
 //
 // Deprecated: Drivers should implement StmtQueryContext instead (or additionally).
-func (s *Stmt) Query(args []driver.Value) (driver.Rows, error) {
+func (s *Stmt) Query(args []driver.Value) (rows driver.Rows, err error) {
+	defer recoverStmtPanic(&err)
+
 	executor, err := exec.BuildExecutor(s.res.dbType, s.txCtx.TransactionMode, s.query)
 	if err != nil {
 		return nil, err
@@ -94,7 +97,9 @@ func (s *Stmt) Query(args []driver.Value) (driver.Rows, error) {
 // QueryContext StmtQueryContext enhances the Stmt interface by providing Query with context.
 // QueryContext executes a query that may return rows, such as a  SELECT.
 // QueryContext must honor the context timeout and return when it is canceled.
-func (s *Stmt) QueryContext(ctx context.Context, args []driver.NamedValue) (driver.Rows, error) {
+func (s *Stmt) QueryContext(ctx context.Context, args []driver.NamedValue) (rows driver.Rows, err error) {
+	defer recoverStmtPanic(&err)
+
 	stmt, ok := s.stmt.(driver.StmtQueryContext)
 	if !ok {
 		return nil, driver.ErrSkip
@@ -131,7 +136,9 @@ func (s *Stmt) QueryContext(ctx context.Context, args []driver.NamedValue) (driv
 // as an INSERT or UPDATE.
 //
 // Deprecated: Drivers should implement StmtExecContext instead (or additionally).
-func (s *Stmt) Exec(args []driver.Value) (driver.Result, error) {
+func (s *Stmt) Exec(args []driver.Value) (result driver.Result, err error) {
+	defer recoverStmtPanic(&err)
+
 	// in transaction, need run Executor
 	executor, err := exec.BuildExecutor(s.res.dbType, s.txCtx.TransactionMode, s.query)
 	if err != nil {
@@ -153,15 +160,20 @@ func (s *Stmt) Exec(args []driver.Value) (driver.Result, error) {
 
 			return types.NewResult(types.WithResult(ret)), nil
 		})
+	if err != nil {
+		return nil, err
+	}
 
-	return ret.GetResult(), err
+	return ret.GetResult(), nil
 }
 
 // ExecContext executes a query that doesn't return rows, such
 // as an INSERT or UPDATE.
 //
 // ExecContext must honor the context timeout and return when it is canceled.
-func (s *Stmt) ExecContext(ctx context.Context, args []driver.NamedValue) (driver.Result, error) {
+func (s *Stmt) ExecContext(ctx context.Context, args []driver.NamedValue) (result driver.Result, err error) {
+	defer recoverStmtPanic(&err)
+
 	stmt, ok := s.stmt.(driver.StmtExecContext)
 	if !ok {
 		return nil, driver.ErrSkip
@@ -193,4 +205,12 @@ func (s *Stmt) ExecContext(ctx context.Context, args []driver.NamedValue) (drive
 	}
 
 	return ret.GetResult(), err
+}
+
+// recoverStmtPanic turns a panic of the statement executor into an error of
+// the statement: it must not unwind through database/sql into the application.
+func recoverStmtPanic(err *error) {
+	if r := recover(); r != nil {
+		*err = fmt.Errorf("stmt exec panic: %v", r)
+	}
 }
